@@ -91,7 +91,7 @@ theorem step_rel_op (s s' : Sys) (a i : Nat) (t : Rat) (sk : Bool) (h : s' ∈ s
       · rename_i o ho
         have r0 : SRel t (fun j => j = a) (TgtOf s (.op a i t sk)) s (s.assignHandle a) := srel_assign s a t _ _
         have r1 : SRel t (fun j => j = a) (TgtOf s (.op a i t sk)) (s.assignHandle a) (bumpPc (s.assignHandle a) a i t) :=
-          ⟨rfl, astep_upd _ a _ (AStep.mk' rfl rfl rfl (Or.inl rfl) (Or.inl ⟨rfl, rfl⟩) (Or.inr rfl) id)⟩
+          ⟨rfl, astep_upd _ a _ (AStep.mk' rfl rfl rfl (Or.inl rfl) (fun hs => Or.inl ⟨hs, rfl⟩) (Or.inr rfl) id)⟩
         have r01 := r0.trans r1
         have hw : ∀ j, Tgt o sk j → TgtOf s (.op a i t sk) j := by
           intro j hj
